@@ -120,6 +120,18 @@ def diff_specs(tier):
                 {"task": "o", "resource": "w0", "delay_in": di, "early_out": eo}, {"task": "t1", "resource": "w0"}],
             constraints=[{"id": "wl", "kind": "WorkLoad", "resource": "w0", "map": [[0, 5, 2]], "mode": "min"}],
             indicators=[{"id": "u", "kind": "Utilization", "resource": "w0"}])))
+    # the same with ONE delay only, tight upper / exact workloads (the other task alone reaches the bound) and the
+    # indicators that read the worker's busy table
+    for di, eo in ((1, 0), (0, 1), (2, 0), (0, 2)):
+        for mode in ("max", "exact"):
+            out.append((f"delayed_workload_tight.di{di}.eo{eo}.{mode}", families.base(
+                6, [families.fx("o", 3, optional=True), families.fx("t1", 2)],
+                workers=[{"name": "w0", "cost": {"kind": "const", "value": 5}}], requirements=[
+                    {"task": "o", "resource": "w0", "delay_in": di, "early_out": eo}, {"task": "t1", "resource": "w0"}],
+                constraints=[{"id": "wl", "kind": "WorkLoad", "resource": "w0", "map": [[0, 6, 2]], "mode": mode}],
+                indicators=[{"id": "u", "kind": "Utilization", "resource": "w0"},
+                            {"id": "c", "kind": "ResourceCost", "resources": ["w0"]},
+                            {"id": "n", "kind": "NbTasksAssigned", "resource": "w0"}])))
     # buffers with an optional accessing task
     for conc in (False, True):
         for kind in ("TaskUnloadBuffer", "TaskLoadBuffer"):
